@@ -3,7 +3,10 @@ use std::{
     fmt::{self, Debug, Formatter},
 };
 
-use serde::{Deserialize, Deserializer, Serialize};
+use serde::{
+    Deserialize, Deserializer, Serialize, Serializer,
+    de::{MapAccess, Visitor, value::MapAccessDeserializer},
+};
 
 use crate::{
     Data, Extensions, ParseRequestError, ServerError, UploadValue, Value, Variables,
@@ -18,7 +21,10 @@ use crate::{
 /// `operationName`).
 #[non_exhaustive]
 #[derive(Serialize, Deserialize)]
-#[serde(rename_all = "camelCase")]
+// `remote = "Self"` makes the derives generate the inherent functions
+// `Request::serialize` and `Request::deserialize` instead of the trait
+// implementations, which are written below.
+#[serde(rename_all = "camelCase", remote = "Self")]
 pub struct Request {
     /// The query source of the request.
     #[serde(default)]
@@ -178,6 +184,41 @@ impl Request {
         };
         self.uploads.push(upload);
         *variable = Value::String(format!("#__graphql_file__:{}", self.uploads.len() - 1));
+    }
+}
+
+impl Serialize for Request {
+    fn serialize<S: Serializer>(&self, serializer: S) -> Result<S::Ok, S::Error> {
+        Request::serialize(self, serializer)
+    }
+}
+
+impl<'de> Deserialize<'de> for Request {
+    fn deserialize<D: Deserializer<'de>>(deserializer: D) -> Result<Self, D::Error> {
+        /// Accepts a map only. The derived implementation also accepts a
+        /// sequence holding the members in declaration order, each of them
+        /// optional, so that the JSON texts `[]` and `["{ a }", "Q"]` would be
+        /// requests (and an array body would never be a batch).
+        struct RequestVisitor;
+
+        impl<'de> Visitor<'de> for RequestVisitor {
+            type Value = Request;
+
+            fn expecting(&self, f: &mut Formatter) -> fmt::Result {
+                f.write_str("a GraphQL request object")
+            }
+
+            fn visit_map<A: MapAccess<'de>>(self, map: A) -> Result<Request, A::Error> {
+                Request::deserialize(MapAccessDeserializer::new(map))
+            }
+        }
+
+        if deserializer.is_human_readable() {
+            deserializer.deserialize_map(RequestVisitor)
+        } else {
+            // compact binary formats may encode a struct as a sequence
+            Request::deserialize(deserializer)
+        }
     }
 }
 
